@@ -54,6 +54,9 @@ func allFeatureSets() []features.FeatureSet {
 
 var reTableOf = regexp.MustCompile(`(?i)^(?:WITH "ins" AS \()?\s*(?:INSERT INTO|UPDATE|DELETE FROM)\s+"[^"]+"\.(\w+)`)
 
+// an INSERT whose VALUES list is empty is a syntax error for Postgres: the write fails under this feature set only
+var reEmptyValues = regexp.MustCompile(`(?i)\bvalues\s*(\(\s*\))?\s*(returning\b|on\s+conflict\b|$)`)
+
 func runC35(r *core.Run) {
 	sets := allFeatureSets()
 	nh := r.N(6, 60)
@@ -72,6 +75,12 @@ func runC35(r *core.Run) {
 				var ps []ledger.Posting
 				for k := 0; k < 1+rng.Intn(3); k++ {
 					ps = append(ps, ledger.NewPosting([]string{"world", "bank", "users:001"}[rng.Intn(3)], []string{"bank", "users:001", "fees"}[rng.Intn(3)], "USD", sim.Amount(rng, true)))
+				}
+				if rng.Intn(5) == 0 {
+					// a transaction that moves nothing (all amounts zero) is still a transaction
+					for k := range ps {
+						ps[k].Amount = big.NewInt(0)
+					}
 				}
 				hist = append(hist, step{kind: "commit", tx: ledger.NewTransaction().WithPostings(ps...).WithMetadata(metadata.Metadata{"k": "v"})})
 			case 3:
@@ -125,6 +134,9 @@ func runC35(r *core.Run) {
 				switch m[1] {
 				case "moves":
 					movesInserts++
+					if reEmptyValues.MatchString(s.SQL) {
+						c.Violation("C35/insert-into-moves-without-any-row", map[string]any{"features": fs.String(), "sql": s.SQL})
+					}
 				case "transactions", "accounts_volumes", "accounts", "logs":
 					q := s.SQL
 					// the UpdateAccountsMetadata timestamp is wall-clock in this harness call: blank it
